@@ -44,6 +44,10 @@ pub struct Case {
     /// (uid, gid) the probe runs as (only honoured when the driver is root; otherwise inherited ids)
     #[serde(default)]
     pub ids: Option<(u32, u32)>,
+    /// with `ids`: the effective gid differs from the real one (and the effective uid is 0), as under
+    /// a set-id program - AT_UID/AT_GID (real) then differ from AT_EUID/AT_EGID
+    #[serde(default)]
+    pub egid: Option<u32>,
 }
 
 /// Names the environment is built from: several are proper prefixes of others, some are not UTF-8,
@@ -196,9 +200,13 @@ pub fn startup_case(thorough: bool) -> impl Strategy<Value = Case> {
     );
     let envp = prop_oneof![1 => prop::collection::vec(entry(), 0..=0), 6 => prop::collection::vec(entry(), 1..=8), 3 => prop::collection::vec(entry(), 9..=40)];
     let ids = prop_oneof![1 => Just(None), 2 => (1000u32..70_000, 1000u32..70_000).prop_map(Some), 1 => (any::<u32>(), any::<u32>()).prop_map(|(u, g)| Some((u.clamp(1, u32::MAX - 2), g.clamp(1, u32::MAX - 2))))];
-    (argv, envp, prop::collection::vec(key_spec(), 1..=8), builds(thorough, 3), ids).prop_map(|(argv, envp, specs, builds, ids)| {
+    (argv, envp, prop::collection::vec(key_spec(), 1..=8), builds(thorough, 3), ids, prop::option::weighted(0.5, 100u32..60_000)).prop_map(|(argv, envp, specs, builds, ids, egid)| {
         let keys = specs.iter().map(|s| BStr(resolve_key(s, &envp))).collect();
-        Case { argv, envp: envp.into_iter().map(BStr).collect(), keys, builds, ids }
+        let egid = match (ids, egid) {
+            (Some((_, g)), Some(e)) => Some(if e == g { e + 1 } else { e }),
+            _ => None,
+        };
+        Case { argv, envp: envp.into_iter().map(BStr).collect(), keys, builds, ids, egid }
     })
 }
 
@@ -213,6 +221,6 @@ pub fn lookup_case(thorough: bool) -> impl Strategy<Value = Case> {
             }
         }
         let keys = specs.iter().map(|s| BStr(resolve_key(s, &envp))).collect();
-        Case { argv: vec![Arg::B(BStr(b"probe-env".to_vec()))], envp: envp.into_iter().map(BStr).collect(), keys, builds, ids: None }
+        Case { argv: vec![Arg::B(BStr(b"probe-env".to_vec()))], envp: envp.into_iter().map(BStr).collect(), keys, builds, ids: None, egid: None }
     })
 }
